@@ -412,8 +412,21 @@ func (w *c07World) finish(c *c07Case) {
 	}
 	// late copies of flush events: give them a moment, they are exempt from "must" anyway
 	w.settle(300*time.Microsecond, 5*time.Millisecond)
-	c.RegEnd = mocrelay.VerifRouterRegistrySize(w.router)
-	c.SubsEnd = mocrelay.VerifRouterSubscriptionCount(w.router)
+	// the hooks take the registry's read lock, which a stuck publisher never releases
+	hook := make(chan [2]int, 1)
+	go func() {
+		hook <- [2]int{mocrelay.VerifRouterRegistrySize(w.router), mocrelay.VerifRouterSubscriptionCount(w.router)}
+	}()
+	ht := time.NewTimer(c07Timeout())
+	select {
+	case v := <-hook:
+		c.RegEnd, c.SubsEnd = v[0], v[1]
+	case <-ht.C:
+		c.RegEnd, c.SubsEnd = -1, -1
+		w.stuck.Store(true)
+		c07SawStuck.Store(true)
+	}
+	ht.Stop()
 	for _, s := range w.ss {
 		if !s.gone {
 			s.cancel()
